@@ -204,7 +204,13 @@ func HarnessC08Dispatch(st any) {
 	method := dispatchMethods[sym.Choose("method", len(dispatchMethods))]
 	lp := sym.Param("lp")
 	path := "/" + sym.String("path", lp-1)
-	sym.Assume(!hasEmptySegment(path))
+	if sym.ParamOr("empty", 0) == 1 {
+		// paths with empty segments, doubled final slash included (never canonical: never redirected)
+		sym.Assume(hasEmptySegment(path))
+		sym.Cover("request path with an empty segment")
+	} else {
+		sym.Assume(!hasEmptySegment(path))
+	}
 	lq := sym.Param("lq")
 	query := sym.String("query", lq)
 	for i := 0; i < len(query); i++ {
